@@ -21,14 +21,17 @@ SnapOf(j) == [local |-> j.local,
               pv    |-> [p \in KPeers \cup UPeers |-> j.pv[p]],
               st    |-> [p \in KPeers |-> j.st[p]]]
 
-TraceInit == tid \in 1..NTraces /\ l = 1 /\ Init
+\* the Start event fixes the configuration: it is consumed by the initial state
+TraceInit == /\ tid \in 1..NTraces
+             /\ l = 2
+             /\ Init
+             /\ Traces[tid][1].e = "Start" /\ wait = Traces[tid][1].wait /\ mode = Traces[tid][1].mode
 
 TraceNext ==
     /\ l <= Len(Tr)
     /\ l' = l + 1
     /\ UNCHANGED tid
     /\ LET e == Tr[l] IN
-       \/ e.e = "Start"  /\ wait = e.wait /\ mode = e.mode /\ UNCHANGED vars
        \/ e.e = "Poll"   /\ Poll(SnapOf(e.snap), e.at)
        \/ e.e = "Finish" /\ Finish(e.v, e.at)
 
